@@ -1,6 +1,8 @@
-"""setup: generate the libraries, build the harness, pre-generate the quick-tier TLC artefacts."""
-from .common import build_harness, ensure_libs, log, tlc_cached, SPEC
+"""setup: generate the libraries, build the harness, pre-generate the quick-tier TLC artefacts
+(they depend on /verif/spec only, so the checks themselves spend their time on the implementation)."""
 import os
+
+from .common import SPEC, build_harness, ensure_libs, log, tlc_cached
 
 
 def run():
@@ -10,5 +12,7 @@ def run():
     for (lib, tier), cfg in graph.MODELS.items():
         if tier == "quick" and os.path.exists(os.path.join(SPEC, cfg)):
             tlc_cached(f"graph-{lib}-{tier}", "MC_Graph", cfg, workers=12, timeout=900)
+    from . import names
+    names.artefacts("quick")
     log("[setup] done")
     return 0
